@@ -185,22 +185,57 @@ func (e *Engine) execMapUpdate(st *State, fr *Frame, x *ssa.MapUpdate) {
 // ---------- range / next (map iteration) ----------
 
 type VRange struct {
-	M       VMap
-	Visited *Term // Array Int Bool, keys already yielded
-	Str     *VString
+	M    VMap
+	Heap string // pseudo-heap (Array Int Bool) holding the keys already yielded
 }
 
 func (e *Engine) execRange(st *State, fr *Frame, x *ssa.Range) Val {
 	switch b := e.val(st, fr, x.X).(type) {
 	case VMap:
 		e.lockCheckMap(st, fr, x.X, false, x)
-		return &VRange{M: b, Visited: ConstArray(RowB, False)}
+		name := fmt.Sprintf("RV$%s$%d", fr.fn.Name(), e.ordinal(x))
+		e.setHeap(st, name, ConstArray(RowB, False))
+		e.Assumptions["map iteration in "+fr.fn.String()+": every key present is yielded exactly once, in any order; the map is not inserted into while it is ranged over"] = true
+		return &VRange{M: b, Heap: name}
 	}
 	panic(unsupported("range over non-map"))
 }
 
+// mapKeyVal turns the integer identity of a map key into a value of the key type. String keys are
+// opaque: their text is a function of the identity (only iteration is supported for such maps).
+func mapKeyVal(st *State, kt types.Type, k *Term) Val {
+	if b, ok := kt.Underlying().(*types.Basic); ok && b.Info()&types.IsString != 0 {
+		ln := App("mapkey$len", IntS, k)
+		st.assume(Ge(ln, Zero), Le(ln, Pow2(40)))
+		st.assume(Eq(App("mapkey$id", IntS, App("mapkey$obj", IntS, k)), k)) // distinct keys are distinct strings
+		return VString{App("mapkey$obj", IntS, k), Zero, ln}
+	}
+	v, _ := Unflatten(kt, []*Term{k})
+	return v
+}
+
+// execNext: one step of a map iteration. ok is symbolic; the following `if ok` splits the paths.
 func (e *Engine) execNext(st *State, fr *Frame, x *ssa.Next) ([]*State, bool) {
-	panic(unsupported("map iteration (Next) outside a loop with invariant support"))
+	r, isMap := e.val(st, fr, x.Iter).(*VRange)
+	if !isMap {
+		panic(unsupported("iteration over a string"))
+	}
+	m := r.M
+	vis := e.heap(st, r.Heap, RowB)
+	k := e.fresh("key", IntS)
+	more := e.fresh("more", BoolS)
+	pn, _ := mapHeapNames(m.K, m.V)
+	ph := e.heap(st, pn, HeapB)
+	pres := Select(Select(ph, m.Ref), k)
+	q := Var("q_key", IntS)
+	allSeen := Forall([]*Term{q}, [][]*Term{{Select(Select(ph, m.Ref), q)}}, Implies(Select(Select(ph, m.Ref), q), Select(vis, q)))
+	st.assume(Implies(more, And(pres, Not(Select(vis, k)))), Implies(Not(more), allSeen))
+	kv := mapKeyVal(st, m.K, k)
+	st.assume(typeInvariant(m.K, kv, st.alloc)...)
+	val, _ := e.mapGet(st, m, VInt{k})
+	e.setHeap(st, r.Heap, Ite(more, Store(vis, k, True), vis))
+	fr.regs[x] = VTuple{[]Val{VBool{more}, kv, val}}
+	return nil, false
 }
 
 // ---------- calls ----------
@@ -332,7 +367,29 @@ func (e *Engine) callFunction(st *State, fr *Frame, x *ssa.Call, callee *ssa.Fun
 		return nil, false
 	}
 	if !inline {
-		panic(unsupported("call to " + callee.String() + " which has no contract"))
+		inModule := callee.Pkg != nil && (callee.Pkg.Pkg.Path() == ModPath || strings.HasPrefix(callee.Pkg.Pkg.Path(), ModPath+"/"))
+		switch {
+		case inModule && len(callee.Blocks) > 0 && len(e.info(callee).byOrd) == 0 && len(st.frames) < 5 && !e.onStack(st, callee):
+			// a helper of the repository without a contract and without loops is executed in place
+			// (so that extracting a helper function keeps a proof, and a changed helper is seen)
+			inline = true
+		case !inModule:
+			// a function of another module without a contract: its result is arbitrary and it is taken
+			// not to touch the state the contracts talk about. Nothing on the unchanged tree depends on
+			// this (the evidence lists it when it does); on changed code it lets the clauses that depend
+			// on the result fail instead of leaving the function undecided.
+			e.Assumptions["call to "+callee.String()+" (no contract, other module): arbitrary result, no effect on modelled state"] = true
+			var res []Val
+			rs := callee.Signature.Results()
+			for i := 0; i < rs.Len(); i++ {
+				res = append(res, e.freshVal(st, rs.At(i).Type(), "ext_"+callee.Name()))
+			}
+			st.calls = append(st.calls, callRec{target: callee.Name(), args: args, res: res, seq: len(st.calls)})
+			setRes(res)
+			return nil, false
+		default:
+			panic(unsupported("call to " + callee.String() + " which has no contract"))
+		}
 	}
 	if len(callee.Blocks) == 0 {
 		panic(unsupported("inline call to " + callee.String() + " without body"))
@@ -626,7 +683,7 @@ func (e *Engine) callOpaque(st *State, fr *Frame, x *ssa.Call, fv ssa.Value, f V
 					res = append(res, e.freshVal(st, f.Sig.Results().At(i).Type(), "opaque"))
 				}
 			}
-			tname := "<opaque>"
+			tname := "opaque"
 			if u, ok := fv.(*ssa.UnOp); ok { // callback loaded from a field: logged under the field's name
 				if fa, ok := u.X.(*ssa.FieldAddr); ok {
 					if stt, ok := under(deref(fa.X.Type())).(*types.Struct); ok {
@@ -644,7 +701,7 @@ func (e *Engine) callOpaque(st *State, fr *Frame, x *ssa.Call, fv ssa.Value, f V
 				st.assume(cc.evalBool(cb.E))
 				e.Assumptions["callback "+tname+" called in "+root.fn.String()+" is assumed to satisfy: "+cb.Text] = true
 			}
-			st.calls = append(st.calls, callRec{target: tname, args: args, res: res, seq: len(st.calls)})
+			st.calls = append(st.calls, callRec{target: tname, args: args, res: res, seq: len(st.calls), fn: f})
 			return tupleOf(res)
 		}
 		panic(unsupported("call of an opaque function value that is not a parameter of the function under contract"))
@@ -939,7 +996,7 @@ func (e *Engine) havocRegionR(st *State, fr *Frame, r region, in ssa.Instruction
 	}
 }
 
-var callLogBuiltins = []string{"called", "notCalled", "callCount", "callArg", "callRes", "callSeq"}
+var callLogBuiltins = []string{"called", "notCalled", "callCount", "callArg", "callRes", "callSeq", "callFn"}
 
 func mentions(x Expr, names []string) bool {
 	found := false
@@ -1005,4 +1062,13 @@ func shortName(name string) string {
 		return name[i+1:]
 	}
 	return name
+}
+
+func (e *Engine) onStack(st *State, fn *ssa.Function) bool {
+	for _, f := range st.frames {
+		if f.fn == fn {
+			return true
+		}
+	}
+	return false
 }
